@@ -246,6 +246,7 @@ func c14run(cs *c14case, r *rng, steps int, scripted []uint64) (events []uint64,
 		voterGrants = 1
 	}
 	termAtRound := cs.term
+	voteTerm, voteGrants := uint64(0), 0
 	checkElection := func() {
 		// an election (term bump) of a pre-vote round must rest on a quorum of voters' pre-votes
 		// (a term learned from an answer is not an election: then the server is a follower again and sent no vote request)
@@ -331,6 +332,21 @@ func c14run(cs *c14case, r *rng, steps int, scripted []uint64) (events []uint64,
 				voterGrants++
 			}
 			before := rr.VerifNodeState()
+			if kind == 1 {
+				// a RequestVote: only voters are asked, only voters' grants of the current term count
+				if !isVoter[p.target] {
+					mons = append(mons, fmt.Sprintf("C01|requestvote-sent-to-non-voter|RequestVote of term %d was sent to server %d, which is not a voter of the latest configuration", before.Term, p.target))
+				}
+				if before.Term != voteTerm {
+					voteTerm, voteGrants = before.Term, 0
+					if isVoter[cs.self] {
+						voteGrants = 1
+					}
+				}
+				if ev[2] != 0 && isVoter[p.target] && ev[1] == before.Term {
+					voteGrants++
+				}
+			}
 			bt, bvt, bvc := stable.Triple()
 			p.reply <- pendAns{term: ev[1], granted: ev[2] != 0}
 			settle()
@@ -340,6 +356,9 @@ func c14run(cs *c14case, r *rng, steps int, scripted []uint64) (events []uint64,
 					time.Sleep(4 * time.Millisecond)
 					settle()
 				}
+			}
+			if kind == 1 && before.Role != raft.Leader && rr.State() == raft.Leader && voteGrants < quorum {
+				mons = append(mons, fmt.Sprintf("C01|leader-without-vote-quorum-of-voters|server became leader of term %d with votes of %d voters (itself included), quorum is %d", rr.CurrentTerm(), voteGrants, quorum))
 			}
 			if kind == 2 {
 				checkElection()
@@ -452,9 +471,7 @@ func runC14cand(cw *caseWriter, tier string, r *rng) {
 				obs := c14ints(parts[2])
 				cw.emit(tag, 14, in, obs, len(in) > 20)
 				for _, m := range strings.Split(parts[3], "\x1f") {
-					if strings.TrimSpace(m) != "" {
-						cw.monitor("C14", tag, "term-raised-without-prevote-quorum-of-voters", "%s", m)
-					}
+					c14emitMon(cw, tag, m)
 				}
 			}
 		}(wk)
@@ -473,8 +490,23 @@ func c14replay(cw *caseWriter, tag string, in []uint64) {
 	_, obs, mons := c14run(cs, &rng{s: 1}, 0, scripted)
 	cw.emit(tag, 14, in, obs, true)
 	for _, m := range mons {
-		cw.monitor("C14", tag, "term-raised-without-prevote-quorum-of-voters", "%s", m)
+		c14emitMon(cw, tag, m)
 	}
+}
+
+func c14emitMon(cw *caseWriter, tag, m string) {
+	m = strings.TrimSpace(m)
+	if m == "" {
+		return
+	}
+	if f := strings.SplitN(m, "|", 3); len(f) == 3 && len(f[0]) == 3 {
+		cw.monitor(f[0], tag, f[1], "%s", f[2])
+		if f[0] == "C01" {
+			cw.monitor("C07", tag, f[1], "%s", f[2]) // non-voters are never counted in elections
+		}
+		return
+	}
+	cw.monitor("C14", tag, "term-raised-without-prevote-quorum-of-voters", "%s", m)
 }
 
 func runC14(cw *caseWriter, tier string, seed uint64) {
